@@ -36,7 +36,7 @@ RELATED = {
     "C17_assembly3d.v": ("proj:3d", "scale-invariance:3d", "nonfinite:3d"),
     "C17_generic3d.v": ("proj:3d", "eig:3d", "scale-invariance:3d", "nonfinite:3d"),
     "C17_degenerate3d.v": ("eig:3d", "proj:3d", "nonfinite:3d", "scale-invariance:3d"),
-    "C17_history.v": ("history-", "damage-decreases:BoundConstrain", "damage-without-load", "damage-imposed-lost:BoundConstrain"),
+    "C17_history.v": ("history-", "damage-decreases:BoundConstrain", "damage-without-load", "damage-imposed-lost:BoundConstrain", "unit-change:"),
     "C17_history_damage.v": ("damage-decreases:HistoryDamage", "damage-not-stored:HistoryDamage", "damage-imposed-lost:HistoryDamage"),
     # the translator is fail-closed on any unrecognised statement: any NEW concrete failing input explains it
     "Gen_Splits.v": ("",),
@@ -144,7 +144,10 @@ sys.path.insert(0, %(here)r)
 from corr import C17_stagger as H
 cfg = json.loads(%(cfg)r)
 fails = []; stats = dict(steps=0, runs=[], max_H_decrease=-1.0, max_d_decrease={})
-H.run_one(cfg["split"], cfg["regu"], cfg["solver"], cfg["loads"], cfg["notch"], fails, stats)
+if cfg.get("twin"):
+    H.run_twin(cfg["split"], cfg["regu"], cfg["solver"], cfg["loads"], cfg["twin"][0], cfg["twin"][1], fails, stats, cfg.get("dim", 2))
+else:
+    H.run_one(cfg["split"], cfg["regu"], cfg["solver"], cfg["loads"], cfg["notch"], fails, stats, cfg.get("dim", 2), cfg.get("sL", 1.0), cfg.get("sE", 1.0))
 print("configuration", cfg)
 for r in stats["runs"]: print("max damage per saved step", r["dmax"])
 for f in fails: print(f["key"], ":", f["what"])
@@ -277,6 +280,9 @@ def run(ctx):
         ctx.cov["history_saved_steps"] = st["steps"]
         ctx.cov["max_history_decrease"] = st["max_H_decrease"]
         ctx.cov["max_damage_decrease"] = st["max_d_decrease"]
+        ctx.cov["history_gauss_point_comparisons_exact"] = st.get("hist_points")
+        ctx.cov["unit_change_twins_max_damage_diff"] = st.get("max_twin_damage_diff")
+        ctx.cov["boundconstrain_unit_change_damage_diff_recorded_only"] = st.get("boundconstrain_twin_damage_diff")
         ctx.obligation("correspondence: history / damage monotone between saved steps, no damage without load", not R["failures"],
                        "; ".join(f["key"] for f in R["failures"]))
         for f in R["failures"]:
